@@ -173,6 +173,31 @@ func simGen(r *rand.Rand, tier string, n int) []*wire.Case {
 		mk("d-revive", s)
 	}
 	{
+		s := base() // the whole team taken to zero by one enemy action, everybody held by a revive: nobody is announced, all are back after the queue
+		s.start = 5
+		s.progs = append(s.progs, "Mu1.0+Mu2.0")
+		s.progs[4] = "Ao.1.1.9000"
+		s.cycles = 4
+		mk("d-revive-all-down", s)
+	}
+	{
+		s := base() // ... only one of them held: the other is announced, the held one is not, and fights on alone
+		s.start = 5
+		s.progs = append(s.progs, "Mu2.0")
+		s.progs[4] = "Ao.1.1.9000"
+		s.cycles = 4
+		mk("d-revive-last-one-held", s)
+	}
+	{
+		s := base() // a lone character held at zero by the enemy's own action
+		s.ckind, s.cspd, s.cenergy, s.cattack, s.cskill, s.cult = []int{0}, []float64{0}, []float64{0}, []int{0}, []int{1}, []int{3}
+		s.start = 5
+		s.progs = append(s.progs, "Mu1.0")
+		s.progs[4] = "Ap.1.1.9000"
+		s.cycles = 4
+		mk("d-revive-lone", s)
+	}
+	{
 		s := base() // limbo at the end of the turn: the phase-2 listener drains a unit that has a revive
 		s.start = 5
 		s.progs = append(s.progs, "Mu1.0+Mu1.3")
@@ -479,6 +504,29 @@ func simGen(r *rand.Rand, tier string, n int) []*wire.Case {
 				calls = append(calls, fmt.Sprintf("%du100", 1+r.Intn(nc)))
 			}
 			s.ults = strings.Join(calls, "|")
+		}
+		if r.Intn(7) == 0 && ne > 0 {
+			// whole-team wipes with revive effects about: the start program gives some characters (often all) a revive, and the
+			// enemies' actions take everybody to zero at once
+			var ms []string
+			for c := 1; c <= nc; c++ {
+				if r.Intn(4) != 0 {
+					ms = append(ms, fmt.Sprintf("Mu%d.0", c))
+				}
+			}
+			if len(ms) > 0 {
+				s.progs[0] = strings.Join(ms, "+")
+				s.start = 0
+			}
+			wipe := 1 + r.Intn(nprogs-1)
+			s.progs[wipe] = pick(r, "Ao.1.1.9000", "Ao.1.2.6000", "Ao.3.1.9000+E", "Ap.1.1.9000+Ao.1.1.9000")
+			for e := 0; e < ne; e++ {
+				s.ehp = append(s.ehp, 50000)
+				s.espd = append(s.espd, pick(r, 100.0, 140, 180))
+				s.eaction = append(s.eaction, wipe)
+			}
+			mk(fmt.Sprintf("r%d", i), s)
+			continue
 		}
 		for e := 0; e < ne; e++ {
 			if fragile {
